@@ -9,7 +9,6 @@ PROP = dict(
               'MemoryManager, executed in lock-step against std:: reference models, with per-operation allocation-failure injection, ASan/UBSan, '
               'Xalan header assertions enabled',
     level_text='Seeded sampling of operation histories (8..80 operations, arguments stored by value, interpreted modulo the current contents and '
-               'In a third of the histories of vector, deque, map, set and string the second container lives on a memory manager of its own (swap exchanges managers; every block must return to the manager it came from). '
                'clamped to the preconditions the headers assert) over 10 container kinds x 3 element types (int, XalanDOMString, a counting type that '
                'owns memory from the simulated manager) with small knobs (initial buckets, load factor, erase threshold, degenerate hash, block size, '
                'capacity). After EVERY operation all observables (size, empty, iteration forwards/backwards, every index, front/back, membership and '
@@ -17,7 +16,7 @@ PROP = dict(
                'std::set/std::u16string. Mode A: no faults, strict equality, zero outstanding blocks and zero live counting elements at the end. '
                'Mode B: the k-th allocation inside marked operations is refused; the container may show the state before, the state after, or (for '
                'multi-element operations) a prefix; anything else, an inconsistent observable, an element imbalance, a crash or a sanitizer report '
-               'is a violation; the model is then re-synchronised and the history continues. Sampling, not exhaustive.',
+               'is a violation; the model is then re-synchronised and the history continues. Sampling, not exhaustive. In a third of the histories of vector, deque, map, set and string the second container lives on a memory manager of its own (swap exchanges managers; every block must return to the manager it came from).',
     level_note='Trusts: std:: containers as reference; the refused allocation throws xercesc::OutOfMemoryException; iteration order of XalanMap/'
                'XalanSet is treated as unspecified (compared as sets); operations std allows but the Xalan headers exclude by assertion are not generated.',
     design_ref='DESIGN.md section 7 (C20), 3.1, 5, 6.2',
